@@ -5,7 +5,10 @@
    External behaviour enters as universally quantified functions: the cipher pair [enc]/[dec],
    zlib [zip]/[unzip], constrained only by [codec_env] (dec (enc b) = b, |enc b| = |b|,
    unzip (zip b) = Some b, zip never returns the empty string); a stream is ANY list of chunks
-   whose concatenation is the bytes on the wire.  [has_c] = a cipher is installed. *)
+   whose concatenation is the bytes on the wire.  [has_c] = the writer has a cipher, [hd] = the
+   reader has the decryptor; the only relation demanded is has_c = true -> hd = true (a frame
+   sent in clear is read correctly by a reader that holds a decryptor).  In a stream every frame
+   may have been written with its own threshold and with or without the cipher. *)
 From Coq Require Import ZArith NArith List Bool.
 From FV Require Import Generated.CodecHeader Lib.GoSem Lib.NList Lib.BE Lib.Crc32 C01.Model C01.RunLib C01.ProofsIO C01.ProofsV1 C01.ProofsV2 C01.Proofs C01.Source.
 Import ListNotations.
@@ -16,24 +19,26 @@ Open Scope N_scope.
    number, caller-set flag bits and body bytes ... and the decoder consumes exactly the bytes
    the encoder produced ... however the stream is chunked"  — V1 *)
 Theorem c01_roundtrip_v1 : forall enc dec zip unzip, codec_env enc dec zip unzip ->
-  forall thr has_c p n ws p' s rest,
+  forall thr has_c hd p n ws p' s rest,
+  (has_c = true -> hd = true) ->
   wf_packet p -> clean_flags p -> body_ok p ->
   write_v1 enc zip thr has_c p = mkWres (Some n) ws p' ->
   concat s = concat ws ++ rest ->
-  exists q, r_out (read_packet_v1 dec unzip has_c s packet0) = Ok q
-            /\ concat (r_rest (read_packet_v1 dec unzip has_c s packet0)) = rest
+  exists q, r_out (read_packet_v1 dec unzip hd s packet0) = Ok q
+            /\ concat (r_rest (read_packet_v1 dec unzip hd s packet0)) = rest
             /\ same_v1 p q.
 Proof. exact roundtrip_v1_fields. Qed.
 Print Assumptions c01_roundtrip_v1.
 
 (* "(plus type, node and reference list in the server-to-server format)" — V2 *)
 Theorem c01_roundtrip_v2 : forall enc dec zip unzip, codec_env enc dec zip unzip ->
-  forall thr has_c p n ws p' s rest,
+  forall thr has_c hd p n ws p' s rest,
+  (has_c = true -> hd = true) ->
   wf_packet p -> clean_flags p -> body_ok p ->
   write_v2 enc zip thr has_c p = mkWres (Some n) ws p' ->
   concat s = concat ws ++ rest ->
-  exists q, r_out (read_packet_v2 dec unzip has_c s packet0) = Ok q
-            /\ concat (r_rest (read_packet_v2 dec unzip has_c s packet0)) = rest
+  exists q, r_out (read_packet_v2 dec unzip hd s packet0) = Ok q
+            /\ concat (r_rest (read_packet_v2 dec unzip hd s packet0)) = rest
             /\ same_v2 p q.
 Proof. exact roundtrip_v2_fields. Qed.
 Print Assumptions c01_roundtrip_v2.
@@ -43,46 +48,50 @@ Print Assumptions c01_roundtrip_v2.
    are dropped by the encoder; the packet comes back as its normal form
    [normalize p] = p with flag bits 0x01/0x02 cleared *)
 Theorem c01_roundtrip_any_flags_v1 : forall enc dec zip unzip, codec_env enc dec zip unzip ->
-  forall thr has_c p n ws p' s rest,
+  forall thr has_c hd p n ws p' s rest,
+  (has_c = true -> hd = true) ->
   wf_packet p -> body_ok p ->
   write_v1 enc zip thr has_c p = mkWres (Some n) ws p' ->
   concat s = concat ws ++ rest ->
-  exists q, r_out (read_packet_v1 dec unzip has_c s packet0) = Ok q
-            /\ concat (r_rest (read_packet_v1 dec unzip has_c s packet0)) = rest
+  exists q, r_out (read_packet_v1 dec unzip hd s packet0) = Ok q
+            /\ concat (r_rest (read_packet_v1 dec unzip hd s packet0)) = rest
             /\ same_v1 (normalize p) q.
 Proof. exact roundtrip_v1_any. Qed.
 Print Assumptions c01_roundtrip_any_flags_v1.
 
 Theorem c01_roundtrip_any_flags_v2 : forall enc dec zip unzip, codec_env enc dec zip unzip ->
-  forall thr has_c p n ws p' s rest,
+  forall thr has_c hd p n ws p' s rest,
+  (has_c = true -> hd = true) ->
   wf_packet p -> body_ok p ->
   write_v2 enc zip thr has_c p = mkWres (Some n) ws p' ->
   concat s = concat ws ++ rest ->
-  exists q, r_out (read_packet_v2 dec unzip has_c s packet0) = Ok q
-            /\ concat (r_rest (read_packet_v2 dec unzip has_c s packet0)) = rest
+  exists q, r_out (read_packet_v2 dec unzip hd s packet0) = Ok q
+            /\ concat (r_rest (read_packet_v2 dec unzip hd s packet0)) = rest
             /\ same_v2 (normalize p) q.
 Proof. exact roundtrip_v2_any. Qed.
 Print Assumptions c01_roundtrip_any_flags_v2.
 
 (* "so back-to-back frames on one stream decode independently and in order" *)
 Theorem c01_stream_v1 : forall enc dec zip unzip, codec_env enc dec zip unzip ->
-  forall thr has_c ps frames,
+  forall hd ps frames,
   Forall sendable ps ->
-  Forall2 (fun p f => exists n ws p', write_v1 enc zip thr has_c p = mkWres (Some n) ws p'
+  Forall2 (fun p f => exists thr has_c n ws p', (has_c = true -> hd = true)
+                                      /\ write_v1 enc zip thr has_c p = mkWres (Some n) ws p'
                                       /\ f = concat ws) ps frames ->
   forall s rest, concat s = concat frames ++ rest ->
-  let res := read_many _ (fun s => read_packet_v1 dec unzip has_c s packet0) (length frames) s in
+  let res := read_many _ (fun s => read_packet_v1 dec unzip hd s packet0) (length frames) s in
   exists qs, fst res = map Ok qs /\ Forall2 same_v1 ps qs /\ concat (snd res) = rest.
 Proof. exact stream_v1. Qed.
 Print Assumptions c01_stream_v1.
 
 Theorem c01_stream_v2 : forall enc dec zip unzip, codec_env enc dec zip unzip ->
-  forall thr has_c ps frames,
+  forall hd ps frames,
   Forall sendable ps ->
-  Forall2 (fun p f => exists n ws p', write_v2 enc zip thr has_c p = mkWres (Some n) ws p'
+  Forall2 (fun p f => exists thr has_c n ws p', (has_c = true -> hd = true)
+                                      /\ write_v2 enc zip thr has_c p = mkWres (Some n) ws p'
                                       /\ f = concat ws) ps frames ->
   forall s rest, concat s = concat frames ++ rest ->
-  let res := read_many _ (fun s => read_packet_v2 dec unzip has_c s packet0) (length frames) s in
+  let res := read_many _ (fun s => read_packet_v2 dec unzip hd s packet0) (length frames) s in
   exists qs, fst res = map Ok qs /\ Forall2 same_v2 ps qs /\ concat (snd res) = rest.
 Proof. exact stream_v2. Qed.
 Print Assumptions c01_stream_v2.
@@ -192,6 +201,21 @@ Theorem c01_limit_closed_form_v2 : forall enc zip thr p,
 Proof. exact limit_predict_v2. Qed.
 Print Assumptions c01_limit_closed_form_v2.
 
+(* a writer that fails (room for k bytes only): the error is reported — never a success with
+   bytes missing —, no Write follows the failing one, what was offered is a prefix of the frame,
+   the caller's packet is as after a successful call; with room for the whole frame nothing
+   differs.  (The codec keeps no state: a later packet on a fresh writer is encoded as by
+   write_v1 / write_v2, the model being a function of the packet alone.) *)
+Theorem c01_failing_writer_v1 : forall enc zip thr has_c p n k,
+  w_ret (write_v1 enc zip thr has_c p) = Some n -> writer_outcome k (write_v1 enc zip thr has_c p) n.
+Proof. exact failing_writer_v1. Qed.
+Print Assumptions c01_failing_writer_v1.
+
+Theorem c01_failing_writer_v2 : forall enc zip thr has_c p n k,
+  w_ret (write_v2 enc zip thr has_c p) = Some n -> writer_outcome k (write_v2 enc zip thr has_c p) n.
+Proof. exact failing_writer_v2. Qed.
+Print Assumptions c01_failing_writer_v2.
+
 (* the length-prefixed helper (codec.WriteLenData / ReadLenData) *)
 Theorem c01_lendata_roundtrip : forall d n ws s rest,
   write_len_data d = (Some n, ws) -> concat s = concat ws ++ rest ->
@@ -283,6 +307,22 @@ Proof.
   - eexists _, _, _. split; [vm_compute; reflexivity|]. split; [reflexivity|]. split; [reflexivity|].
     vm_compute. reflexivity.
 Qed.
+
+(* non-vacuity of the stream theorem and of the failing writer: two frames written with different
+   thresholds, one in clear and one encrypted, read back by a reader holding the decryptor from
+   3-byte chunks; and the first of them against a writer with room for 20 bytes *)
+Example c01_stream_example :
+  let p2 := mkPacket 9%Z 1 0 0%Z 0 [] (BStr [65; 66; 67; 68]) in
+  let w1 := write_v2 ex_enc ex_zip 3 false ex_packet in
+  let w2 := write_v2 ex_enc ex_zip 100 true p2 in
+  let wire := concat (w_writes w1) ++ concat (w_writes w2) in
+  fst (read_many _ (fun s => read_packet_v2 ex_enc ex_unzip true s packet0) 2
+         [firstn 3 wire; firstn 3 (skipn 3 wire); skipn 6 wire])
+  = [Ok (mkPacket (-7)%Z 513 32 1%Z 16909060 [1; 4294967295] (BBytes [104; 101; 108; 108; 111]));
+     Ok (mkPacket 9%Z 1 0 0%Z 0 [] (BBytes [65; 66; 67; 68]))]
+  /\ w_ret (to_writer 20 w1) = None /\ length (w_writes (to_writer 20 w1)) = 1%nat
+  /\ to_writer 34 w1 = w1.
+Proof. vm_compute. repeat split. Qed.
 
 (* the V1 frame-size limit at its boundary: 14 + 61426 = 61440 bytes are emitted, one byte more
    is refused without a write (computed by the model; the 8 MiB boundary of V2 is covered by
